@@ -891,7 +891,7 @@ def md_expected(r):
 # ------------------------------------------------------------------------------------------ discharge (E-matching first)
 _engine_discharge = E.discharge
 # the most expensive proof of this check needs about 2.5e6 resource units (list_suggestion_operations.order); all others < 2e5
-RLIMIT_EMATCH, RLIMIT_MBQI, SAFETY_MS = 15000000, 6000000, 120000
+RLIMIT_EMATCH, RLIMIT_MBQI, SAFETY_MS = 9000000, 4000000, 120000
 
 
 def discharge(run, formula, npc=None, nax=None, timeout_ms=10000, extra=()):
@@ -1052,6 +1052,116 @@ def lock_lexical(fn):
     for st in fn.body:
         visit(st, False)
     return bad
+
+
+# ------------------------------------------------------------------------------------------ SQL filters (AST)
+KEY_COLUMNS = {'owner_name', 'study_name', 'trial_name', 'operation_name', 'owner_id', 'study_id', 'client_id', 'trial_id', 'operation_number'}
+PATTERN_CALLS = {'startswith', 'endswith', 'istartswith', 'iendswith', 'like', 'ilike', 'notlike', 'not_like', 'notilike', 'not_ilike',
+                 'contains', 'icontains', 'match', 'regexp_match', 'regexp_replace', 'glob', 'op', 'bool_op', 'between', 'concat',
+                 'collate', 'text', 'literal_column'}
+OP_TO_METHOD = {'create_sop_next': 'create_suggestion_operation', 'create_sop': 'create_suggestion_operation', 'get_sop': 'get_suggestion_operation',
+                'update_sop': 'update_suggestion_operation', 'list_sops': 'list_suggestion_operations', 'max_sop': 'max_suggestion_operation_number',
+                'create_eop': 'create_early_stopping_operation', 'get_eop': 'get_early_stopping_operation',
+                'update_eop': 'update_early_stopping_operation'}
+
+
+def _column_of(e):
+    """'<col>' if e is `self._<x>_table.c.<col>` (or `<table>.c.<col>`), else None."""
+    if isinstance(e, ast.Attribute) and isinstance(e.value, ast.Attribute) and e.value.attr in ('c', 'columns'):
+        return e.attr
+    return None
+
+
+def _plain_value(e):
+    """a value that is not a pattern assembled from a resource name: no string building, no pattern call."""
+    for n in ast.walk(e):
+        if isinstance(n, (ast.JoinedStr, ast.BinOp)):
+            return False
+        if isinstance(n, ast.Call) and isinstance(n.func, ast.Attribute) and n.func.attr in (PATTERN_CALLS | {'format', 'join', 'replace'}):
+            return False
+    return True
+
+
+def _key_equality(e):
+    """None if e is a conjunction of `key column == value` (or `key column IN values`), else a description of what it is."""
+    if isinstance(e, ast.Compare) and len(e.ops) == 1 and isinstance(e.ops[0], ast.Eq):
+        col = _column_of(e.left)
+        if col is None and _column_of(e.comparators[0]) is not None:
+            col, val = _column_of(e.comparators[0]), e.left
+        else:
+            val = e.comparators[0]
+        if col in KEY_COLUMNS and _plain_value(val):
+            return None
+        return 'comparison `%s` is not `key column == plain value`' % ast.unparse(e)
+    if isinstance(e, ast.Call) and isinstance(e.func, ast.Attribute) and e.func.attr == 'in_' and _column_of(e.func.value) in KEY_COLUMNS \
+            and all(_plain_value(a) for a in e.args):
+        return None
+    if isinstance(e, ast.Call) and isinstance(e.func, ast.Attribute) and e.func.attr == 'and_':
+        bad = [b for b in (_key_equality(a) for a in e.args) if b]
+        return bad[0] if bad else None
+    if isinstance(e, ast.BoolOp) and isinstance(e.op, ast.And):
+        bad = [b for b in (_key_equality(a) for a in e.values) if b]
+        return bad[0] if bad else None
+    return 'filter `%s` is not a conjunction of equalities on key columns' % ast.unparse(e)[:160]
+
+
+def where_shape(fn):
+    """(number of filters, [what is wrong]) for one method of SQLDataStore."""
+    n, bad = 0, []
+    for node in ast.walk(fn):
+        if not (isinstance(node, ast.Call) and isinstance(node.func, ast.Attribute)):
+            continue
+        a = node.func.attr
+        if a in ('where', 'filter', 'having', 'filter_by'):
+            n += 1
+            if a == 'filter_by' or node.keywords:
+                bad.append('line %d: keyword filter `%s`' % (node.lineno, ast.unparse(node)[:120]))
+            for arg in node.args:
+                b = _key_equality(arg)
+                if b:
+                    bad.append('line %d: %s' % (node.lineno, b))
+        elif a in PATTERN_CALLS and (any(_column_of(x) for x in ast.walk(node.func.value)) or a in ('text', 'literal_column')):
+            msg = 'line %d: pattern / raw-SQL operator `%s`' % (node.lineno, ast.unparse(node)[:120])
+            if not any(msg.split(': ', 1)[1][:40] in b for b in bad):
+                bad.append(msg)
+    return n, bad
+
+
+def check_sql_filters(chk, merged, used):
+    mod = ModuleInfo.get(SQL)
+    cls = mod.classes.get('SQLDataStore')
+    if cls is None:
+        chk.error('C07.sql.extract', 'class SQLDataStore not found')
+        return
+    for m, fn in cls.methods.items():
+        if m.startswith('__'):
+            continue
+        t0 = time.time()
+        n, bad = where_shape(fn)
+        name = 'C07.sql.%s.where_is_key_equality' % m
+        if not bad:
+            chk.obligation(name, 'SQLDataStore.' + m, 'frame', report.PROVED, time.time() - t0, detail={'filters': n})
+            continue
+        # outside the shape: the relational meaning is external (LIKE wildcards, case folding, collation, ...): decided only
+        # by a natively reproduced divergence of the SQL backends from the contract
+        wit = None
+        for d in (merged['unexplained'] if merged else []):
+            if not d['backend'].startswith('sql'):
+                continue
+            calls = {OP_TO_METHOD.get(op[0], op[1] if op[0] == 'raw' else op[0]) for op in d['witness']['sequence']}
+            if m in calls or d['method'] == m:
+                wit = d
+                break
+        if wit is not None:
+            used.add(wit['signature'])
+            chk.obligation(name, 'SQLDataStore.' + m, 'frame+native-replay', report.VIOLATED, time.time() - t0, detail={'filters': n, 'outside_shape': bad},
+                           model='a filter of SQLDataStore.%s is not a conjunction of equalities on key columns: %s; the SQL backend diverges from '
+                                 'the contract / from RAM on a sequence that calls it' % (m, '; '.join(bad)),
+                           replay=replay_of(wit), reproduced=True)
+        else:
+            chk.obligation(name, 'SQLDataStore.' + m, 'frame', report.UNDECIDED, time.time() - t0,
+                           detail={'filters': n, 'outside_shape': bad,
+                                   'reason': 'the meaning of this filter is decided by SQLite (external); no divergence was reproduced natively'})
 
 
 # ------------------------------------------------------------------------------------------ bounded stand-in (native)
@@ -1224,6 +1334,7 @@ def main(tier):
                           '(the contract is deterministic except for the error class of a malformed name)')
 
     # ---- Part 2: bounded comparison RAM / SQL(:memory:) / SQL(file) against the contract
+    check_sql_filters(chk, merged, used)
     if merged is not None:
         bound = ('' if not quick else '[quick: sequences are extended only after calls that change the contract state] ') + \
                 'all sequences of length <= %d over %d operations (2 studies x 3 trials x 2 clients, owner without studies, malformed and ' \
